@@ -1,7 +1,263 @@
-from ..model import AnalysisError
+"""C08 - machine holds <= work_capacity items, each for exactly its processing delay (partial).
+
+  R1 (Machine, Splitter) a yielded worker-slot request dominates every in-edge get of the same iteration, one
+     request per pulled unit;
+  R2 the request token handed to the worker is released exactly once on every non-raising exit, after the
+     unit of work was disposed of (3 workers);
+  R3 the simpy.Resource capacity is the constructor's work_capacity (1 for Splitter / Combiner);
+  R4 exactly one get_delay(self.processing_delay) per pulled unit, and that value - unchanged - is the argument
+     of exactly one timeout (followed across the spawn);
+  R5 between the pull and the first push attempt the only suspension is that timeout.
+"""
+from __future__ import annotations
+
+import ast
+
+from .. import nodewalk, paths
+from ..model import AnalysisError, Project, self_attr, walk_no_nested
+from ..report import Result
+from .common import site, src
+
 PROP = 'C08'
 LEVEL = 'other'
 
+WORK_NODES = ('Machine', 'Splitter', 'Combiner')
+SLOT_BEFORE_PULL = ('Machine', 'Splitter')
 
-def run(p, tier):
-    raise AnalysisError('rule module for C08 not implemented yet (fail closed)')
+
+def run(p: Project, tier: str) -> Result:
+    r = Result(PROP)
+    r.explanation = ('Worker-slot typestate (requested before the pull, released after the push, on every exit), capacity wiring, and the '
+                     'data flow of the drawn processing delay into exactly one timeout. Exact residence times and same-instant orderings are not decided.')
+    r.rule('C08.R1', 'slot request yielded before every pull of the iteration (Machine, Splitter)', 4)
+    r.rule('C08.R2', 'worker releases the slot token it was given exactly once, after disposing of its unit', 3)
+    r.rule('C08.R3', 'Resource capacity = work_capacity (constructor argument; 1 for Splitter/Combiner)', 3)
+    r.rule('C08.R4', 'one processing delay drawn per unit; it reaches exactly one timeout unchanged', 3)
+    r.rule('C08.R5', 'no other suspension between pull and first push attempt', 3)
+    r.not_decided = ['exact residence time (real-valued kernel times)', 'simultaneous arrivals on several in-edges',
+                     "the Combiner gathers its ingredients before it asks for the slot (the statement does not bound this phase)"]
+    ws = {w.ci.name: w for w in nodewalk.walks(p)}
+    for name in WORK_NODES:
+        if name not in ws:
+            raise AnalysisError(f'anchor vanished: node class {name}')
+        w = ws[name]
+        r.paths += w.npaths
+        check_capacity(p, w, r)
+        if name in SLOT_BEFORE_PULL:
+            check_slot_before_pull(w, r)
+        check_release(w, r)
+        check_delay(w, r)
+    return r
+
+
+def check_capacity(p, w, r):
+    ci = w.ci
+    init = ci.methods.get('__init__')
+    key = f'{ci.label}.__init__::resource-capacity'
+    if init is None:
+        r.fail('C08.R3', key, '__init__ missing', src(ci.module), ci.node.lineno)
+        return
+    r.analysed_functions.add(init.key)
+    res = None
+    wc = []
+    for n in walk_no_nested(init.node):
+        if isinstance(n, ast.Assign) and any(self_attr(t) == 'worker_thread' for t in n.targets) and isinstance(n.value, ast.Call):
+            res = n.value
+        if isinstance(n, ast.Assign) and any(self_attr(t) == 'work_capacity' for t in n.targets):
+            wc.append(n.value)
+    if res is None or not ast.unparse(res.func).endswith('Resource'):
+        r.fail('C08.R3', key, 'self.worker_thread is not a simpy.Resource', src(ci.module), init.node.lineno)
+        return
+    cap = None
+    for k in res.keywords:
+        if k.arg == 'capacity':
+            cap = k.value
+    if cap is None and len(res.args) > 1:
+        cap = res.args[1]
+    params = [a.arg for a in init.node.args.args]
+    want = 'work_capacity' if 'work_capacity' in params else '1'
+    captxt = ast.unparse(cap) if cap is not None else '(default 1)'
+    ok = False
+    if captxt in ('self.work_capacity',) and len(wc) == 1 and ast.unparse(wc[0]) == want:
+        ok = True
+    elif captxt == want:
+        ok = True
+    # work_capacity is not reassigned elsewhere
+    others = [fi for fi, v, _ in p.self_attr_sites(ci.key).get('work_capacity', []) if fi.name != '__init__']
+    if others:
+        ok = False
+    if ok:
+        r.ok('C08.R3', key, f'Resource(capacity={captxt}) with work_capacity = {want}', src(ci.module), init.node.lineno)
+    else:
+        r.fail('C08.R3', key, f'worker Resource has capacity `{captxt}` (self.work_capacity = {[ast.unparse(x) for x in wc]}), expected `{want}`',
+               src(ci.module), init.node.lineno)
+
+
+def check_slot_before_pull(w, r):
+    fi = w.root_funcs['behaviour']
+    r.analysed_functions.add(fi.key)
+    sites = {}
+    for pa in w.roots['behaviour']:
+        if pa.raises:
+            continue
+        slots = 0
+        reqvals = set()
+        for e in pa.events:
+            if e.kind == 'pcall' and e.name == 'request' and e.recv == 'self.worker_thread':
+                reqvals.add(e.result)
+            elif e.kind == 'yield' and e.value in reqvals:
+                slots += 1
+            elif e.kind == 'pcall' and e.name == 'get':
+                key = site(e.fi, e.node, 'pull')
+                rec = sites.setdefault(key, {'ok': True, 'e': e, 'pa': pa})
+                if slots < 1 and rec['ok']:
+                    rec.update(ok=False, pa=pa)
+                slots -= 1
+    for key, rec in sorted(sites.items()):
+        e = rec['e']
+        if rec['ok']:
+            r.ok('C08.R1', key, 'a granted slot request precedes the pull on every path', src(e.fi.module), e.line)
+        else:
+            r.fail('C08.R1', key, 'item pulled from the in-edge without a worker slot granted in this iteration: the node can hold more than '
+                                  'work_capacity items', src(e.fi.module), e.line, rec['pa'].describe())
+
+
+DISPOSE = ('put',)
+
+
+def check_release(w, r):
+    if 'worker' not in w.roots:
+        raise AnalysisError(f'{w.ci.label}: worker root missing')
+    fi = w.root_funcs['worker']
+    r.analysed_functions.add(fi.key)
+    params = [a.arg for a in fi.node.args.args if a.arg != 'self']
+    # which parameter receives the request token: read it off the spawn site in behaviour
+    tokpos = None
+    for pa in w.roots['behaviour']:
+        reqvals = {e.result for e in pa.events if e.kind == 'pcall' and e.name == 'request'}
+        for e in pa.events:
+            if e.kind == 'spawn' and e.func == 'self.worker':
+                for i, v in enumerate(e.args):
+                    if v in reqvals:
+                        tokpos = i
+    key = f'{fi.key}::release'
+    if tokpos is None or tokpos >= len(params):
+        r.fail('C08.R2', key, 'behaviour does not hand the granted slot request to the worker it spawns', src(fi.module), fi.node.lineno)
+        return
+    tok = ('param', params[tokpos])
+    bad = None
+    n = 0
+    for pa in w.roots['worker']:
+        if pa.raises or pa.status == 'loopcut':
+            continue
+        n += 1
+        rel = [i for i, e in enumerate(pa.events) if e.kind == 'pcall' and e.name == 'release' and e.args and e.args[0] == tok]
+        if len(rel) != 1:
+            bad = (pa, f'the slot token is released {len(rel)} time(s) on this exit (expected exactly 1)')
+            continue
+        later = [e for e in pa.events[rel[0]:] if (e.kind == 'pcall' and e.name in ('put', 'reserve_put', 'can_put')) or
+                 (e.kind == 'spawn') or e.kind == 'first_available']
+        if later:
+            bad = (pa, f'the slot is released before the unit of work is disposed of (`{later[0].d.get("name", later[0].kind)}` at line {later[0].line} follows)')
+        yielded = any(e.kind == 'yield' and e.cls == 'release' for e in pa.events[rel[0]:rel[0] + 2])
+    if n == 0:
+        r.fail('C08.R2', key, 'no complete worker path', src(fi.module), fi.node.lineno)
+    elif bad:
+        r.fail('C08.R2', key, bad[1], src(fi.module), fi.node.lineno, bad[0].describe())
+    else:
+        r.ok('C08.R2', key, f'released once, last, on {n} path(s)', src(fi.module), fi.node.lineno)
+
+
+def timeout_arg(pa, y):
+    for x in pa.events:
+        if x.kind == 'xcall' and x.d.get('result') == y.value:
+            return x.args[0] if x.args else None
+    return None
+
+
+def check_delay(w, r):
+    bfi = w.root_funcs['behaviour']
+    wfi = w.root_funcs['worker']
+    key4 = f'{w.ci.label}::processing-delay'
+    key5 = f'{w.ci.label}::no-stray-wait-before-push'
+    bad4 = bad5 = None
+    delaypos = None
+    n = 0
+    for pa in w.roots['behaviour']:
+        if pa.raises:
+            continue
+        gets = [i for i, e in enumerate(pa.events) if e.kind == 'pcall' and e.name == 'get']
+        if not gets:
+            continue
+        n += 1
+        draws = [e for e in pa.events if e.kind == 'call' and e.name == 'get_delay']
+        if len(draws) != 1:
+            bad4 = (pa, f'{len(draws)} processing delays drawn for one unit of work (expected exactly 1)')
+            continue
+        if draws[0].args != (('self', 'processing_delay'),):
+            bad4 = (pa, f'the delay is drawn from {draws[0].args}, not from self.processing_delay')
+        di = pa.events.index(draws[0])
+        # its value: first fresh symbol 'call:get_delay' appearing afterwards as an argument
+        dval = None
+        for e in pa.events[di:]:
+            for v in list(e.d.get('args', ())) + [e.d.get('value')]:
+                if isinstance(v, tuple) and v[:2] == ('sym', 'call:get_delay'):
+                    dval = v
+                    break
+            if dval:
+                break
+        touts_here = [e for e in pa.events if e.kind == 'yield' and e.cls == 'timeout' and timeout_arg(pa, e) == dval]
+        spawns = [e for e in pa.events if e.kind == 'spawn' and e.func == 'self.worker']
+        handed = [i for e in spawns for i, v in enumerate(e.args) if v == dval]
+        if len(touts_here) + len(handed) != 1:
+            bad4 = (pa, f'the drawn delay reaches {len(touts_here)} timeout(s) here and is handed to the worker {len(handed)} time(s) (expected exactly one use)')
+        if handed:
+            delaypos = handed[0]
+        # R5 in behaviour: no yields between the last get and the spawn, except the processing timeout itself / the slot request (Combiner)
+        last_get = gets[-1]
+        for e in pa.events[last_get:]:
+            if e.kind == 'spawn' and e.func == 'self.worker':
+                break
+            if e.kind == 'yield':
+                if e in touts_here:
+                    continue
+                if w.ci.name == 'Combiner' and (e.cls in ('request',) or (e.value and e.value[0] == 'presult' and e.value[1] == 'request')):
+                    continue
+                if w.ci.name == 'Splitter' and (e.value and e.value[0] == 'presult' and e.value[1] == 'request'):
+                    continue     # the splitter asks for its (single) slot right after choosing the edge, before the get
+                bad5 = (pa, f'behaviour suspends on `{e.text}` between the pull and the start of processing')
+    if n == 0:
+        bad4 = (w.roots['behaviour'][0], 'no pulling path found')
+    # worker side
+    params = [a.arg for a in wfi.node.args.args if a.arg != 'self']
+    if delaypos is not None:
+        if delaypos >= len(params):
+            bad4 = bad4 or (w.roots['worker'][0], 'worker has no parameter for the delay')
+        else:
+            dpar = ('param', params[delaypos])
+            for pa in w.roots['worker']:
+                if pa.raises or pa.status == 'loopcut':
+                    continue
+                touts = [e for e in pa.events if e.kind == 'yield' and e.cls == 'timeout']
+                mine = [e for e in touts if timeout_arg(pa, e) == dpar]
+                if len(mine) != 1:
+                    bad4 = (pa, f'the worker waits {len(mine)} time(s) on the delay it was given (expected exactly once)')
+                other = [e for e in touts if e not in mine]
+                if other:
+                    bad4 = (pa, f'the worker has an additional timed wait `{other[0].text}`: the unit is held longer than its processing delay')
+                # R5: before the first push attempt only that timeout
+                first_push = next((i for i, e in enumerate(pa.events) if (e.kind == 'pcall' and e.name in ('reserve_put', 'can_put'))
+                                   or e.kind == 'first_available' or (e.kind == 'setitem' and 'num_item_discarded' in e.target)), len(pa.events))
+                for e in pa.events[:first_push]:
+                    if e.kind == 'yield' and e not in mine:
+                        bad5 = (pa, f'the worker suspends on `{e.text}` before its first push attempt')
+    r.analysed_functions.add(bfi.key)
+    r.analysed_functions.add(wfi.key)
+    if bad4:
+        r.fail('C08.R4', key4, bad4[1], src(bfi.module), bfi.node.lineno, bad4[0].describe())
+    else:
+        r.ok('C08.R4', key4, 'drawn once from self.processing_delay, used by exactly one timeout', src(bfi.module), bfi.node.lineno)
+    if bad5:
+        r.fail('C08.R5', key5, bad5[1], src(bfi.module), bfi.node.lineno, bad5[0].describe())
+    else:
+        r.ok('C08.R5', key5, 'only the processing timeout between pull and push', src(bfi.module), bfi.node.lineno)
